@@ -17,7 +17,7 @@ def RULE(tier):
     b = BOUNDS[tier]
     return (
         "Two real endpoints (AsyncFIXClient and AsyncFIXDummyServer subclasses that only record callbacks and send Logon from "
-        "on_connect, each with its own journal) joined by a simulated link whose frames are delivered one at a time by the "
+        "on_connect, each with its own journal; counters starting at 1 or, in part of the walks, just below 10 / 100 / 1000 / 10000) joined by a simulated link whose frames are delivered one at a time by the "
         "harness. Actions: application send on either side (unique payload; accepted iff send_msg returns), deliver the next "
         "in-flight frame in either direction (or all in-flight frames of one direction coalesced into one read), break the connection (everything in flight lost; each end sees EOF / "
         "ConnectionResetError on read / OSError on read / a failing drain; or right behind a frame that is still read, so that the reader notices through the failing write of whatever it sends while handling it), end the connection gracefully from either side (public disconnect() with a Logout; counted against the break budget; in walks, fixed sequences and the thorough DFS), reconnect (real connect() / _handle_accept() over "
@@ -99,6 +99,8 @@ def apply(d, a, flags):
         if d.connected(a[1]) and d.link_alive():
             d.send_test_req(a[1])
             flags.add("keep-alive-traffic")
+    elif a[0] == "counters":
+        pass  # consumed when the pair was created
     elif a[0] == "responder":
         d.set_responder(a[1])
         flags.add("re-entrant-responder")
@@ -127,9 +129,11 @@ def prefix_ok(d):
 
 def run_sequence(acc, seq, origin, judge=True):
     """Executes the action sequence on a fresh pair; returns (duo-signature, enabled-actions) or judges at closure."""
-    d = Duo()
+    d = Duo(start=tuple(seq[0][1:]) if seq and seq[0][0] == "counters" else None)
     flags = set()
     case = {"seq": [list(a) for a in seq]}
+    if seq and seq[0][0] == "counters":
+        flags.add("counters-near-digit-boundary")
 
     def bad(sig, detail):
         acc.violation("C07:" + sig, detail + f" | seq={seq}", case)
@@ -213,8 +217,9 @@ step = st.tuples(st.integers(0, 1000), st.sampled_from(KINDS))
 
 def run_walk(acc, steps):
     """Random walk: the chosen actions are resolved against the enabled set of a live pair, then judged by re-execution."""
-    d = Duo()
-    seq = []
+    pre = [None, None, ("counters", 8, 97), ("counters", 98, 8), ("counters", 998, 9998)][steps[0][0] % 5] if steps else None
+    d = Duo(start=pre[1:] if pre else None)
+    seq = [pre] if pre else []
     flags = set()
     try:
         for choice, kind in steps:
@@ -265,6 +270,9 @@ FIXED = [
     # an application that ends the connection from inside on_message; the same session reconnects
     [("send", "c"), ("send", "c"), ("armd", "s"), ("deliver", "c"), ("reconnect",), ("send", "c"), ("send", "s")],
     [("send", "s"), ("armd", "c"), ("deliver", "s"), ("send", "s"), ("reconnect",), ("armd", "c"), ("send", "s")],
+    # counters crossing 9 -> 10 and 99 -> 100 during loss and recovery
+    [("counters", 8, 98), ("send", "c"), ("send", "c"), ("send", "c"), ("send", "s"), ("send", "s"), ("deliver", "c"), ("break", "eof"), ("reconnect",), ("send", "c"), ("send", "s"),
+     ("deliver", "c"), ("deliver", "s"), ("break", "eof"), ("reconnect",)],
     # the receiver answers from inside on_message and notices the break through the failing write of that answer
     [("responder", "s"), ("send", "c"), ("deliver", "c"), ("send", "c"), ("send", "c"), ("deliver_brk", "c"), ("reconnect",), ("send", "c")],
     [("responder", "c"), ("send", "s"), ("deliver_brk", "s"), ("reconnect",), ("send", "s"), ("deliver", "s"), ("send", "c")],
@@ -281,6 +289,11 @@ def fixed(acc):
         eff = []
         try:
             # a fresh pair has the client's Logon in flight: complete the Logon exchange first
+            if seq and seq[0][0] == "counters":
+                d.close()
+                d = Duo(start=tuple(seq[0][1:]))
+                eff.append(seq[0])
+                seq = seq[1:]
             for a in [("deliver", "c"), ("deliver", "s")] + list(seq):
                 if a[0] in ("deliver", "deliver_all", "deliver_brk") and not d.can_deliver(a[1]):
                     continue
